@@ -412,3 +412,5 @@ theorem finish_allFin {cfg : Cfg} (fuel : Nat) {s : State} (h : InvA cfg s)
       have hdec := exec_decreases (List.range cfg.ntasks) h t ht hf hnb (List.mem_range.mpr ht)
       apply ih (invA_exec cfg _ h)
       omega
+
+end MdModel.Once
